@@ -4,7 +4,7 @@
 (* "ipeq" (ip == T) and "ipitem" (ip in {T}) for addresses, CIDR blocks and address ranges.  *)
 (* Expected == [ok, v]: accepted iff T is, in its entirety, one well-formed literal.          *)
 (* For the IP kinds ok is "yes" / "no" / "unspec" (short IPv4 forms are not judged) and the   *)
-(* value is [a, b, len]: address (a = b, len = bits), block (a = b = network), range (len 0). *)
+(* value is [a, b, len]: address (a = b, len = bits), block (a = b = network), range (len -1).*)
 EXTENDS WfLexIp
 ExpectedIp(kind, T) ==
   LET r == IF kind = "ipeq" THEN LexIpAddr(T) ELSE LexIpItem(T) IN
